@@ -520,3 +520,28 @@ Definition source_headers_as_modelled : bool :=
 
 Definition closedb (ts : list tpl) : bool :=
   forallb (fun o => existsb (key_eqb (key o)) known_offender_keys) (offenders ts).
+
+(** * Comparing a rendered header list with the expected one inside Coq (the tie prints only the verdict) *)
+
+Fixpoint strs_eqb (a b : list str) : bool :=
+  match a, b with
+  | [], [] => true
+  | x :: a', y :: b' => str_eqb x y && strs_eqb a' b'
+  | _, _ => false
+  end.
+
+Definition rendered := (list str * option str * str * list str)%type.
+
+Definition rendered_eqb (a b : rendered) : bool :=
+  let '(p1, t1, s1, w1) := a in
+  let '(p2, t2, s2, w2) := b in
+  strs_eqb p1 p2
+  && match t1, t2 with Some x, Some y => str_eqb x y | None, None => true | _, _ => false end
+  && str_eqb s1 s2 && strs_eqb w1 w2.
+
+Fixpoint rendereds_eqb (a b : list rendered) : bool :=
+  match a, b with
+  | [], [] => true
+  | x :: a', y :: b' => rendered_eqb x y && rendereds_eqb a' b'
+  | _, _ => false
+  end.
